@@ -251,12 +251,12 @@ def gen_ty(rng, f, ty, depth, big):
     raise ValueError(k)
 
 
-def gen_rec(rng, fields, depth=0, big=False):
+def gen_rec(rng, fields, depth=0, big=False, absent_pos=True):
     vals = [gen_ty(rng, f, f["ty"], depth, big) for f in fields]
     # an absent positional optional is canonical only if the inner decoder must fail on what follows:
     # allowed here for Fixed<n> inners when fewer than n bytes follow
     for i, f in enumerate(fields):
-        if f["tag"] is None and f["ty"]["k"] == "opt" and rng.random() < 0.3:
+        if absent_pos and f["tag"] is None and f["ty"]["k"] == "opt" and rng.random() < 0.3:
             n = fixed_n(f["length"])
             if n is None:
                 continue
@@ -266,9 +266,9 @@ def gen_rec(rng, fields, depth=0, big=False):
     return ("rec", vals)
 
 
-def gen_struct_value(rng, s, big=False):
+def gen_struct_value(rng, s, big=False, absent_pos=True):
     for _ in range(20):
-        v = gen_rec(rng, s["fields"], 0, big)
+        v = gen_rec(rng, s["fields"], 0, big, absent_pos)
         try:
             b = enc_struct(s, v)
         except ValueError:
